@@ -559,6 +559,22 @@ class C10(Prop):
         net.connect_hook = on_connect
 
         err = None
+        # pool / manager level: a benign second request through the SAME pool after the case's request,
+        # whatever became of the first ("no caller-supplied string can ... start a second request" must also
+        # hold for what a rejected or failed request leaves behind in a pooled connection)
+        err2, wire2, marks, followed = None, None, {}, []
+        FOLLOW_URL, FOLLOW_HDRS = "/follow", {"X-F": "1"}
+
+        def follow_up(send):
+            nonlocal err2, wire2
+            followed.append(1)
+            marks.update({sid: len(net.sent[sid]) for sid in net.sent})
+            try:
+                send()
+            except Exception as e2:         # noqa: BLE001
+                err2 = exc_name(e2)
+            wire2 = b"".join(bytes(net.sent[sid])[marks.get(sid, 0):] for sid in sorted(net.sent))
+
         with net.installed():
             try:
                 if level == "conn":
@@ -572,16 +588,23 @@ class C10(Prop):
                     try:
                         pool.urlopen(meth, url, body=body, headers=hdict, chunked=chunked, retries=False, redirect=False)
                     finally:
-                        pool.close()
+                        try:
+                            follow_up(lambda: pool.urlopen("GET", FOLLOW_URL, headers=dict(FOLLOW_HDRS), retries=False, redirect=False))
+                        finally:
+                            pool.close()
                 else:
                     pm = urllib3.PoolManager(blocksize=bs, retries=False)
                     try:
                         pm.request(meth, "http://" + HOST + url if url.startswith("/") else url, body=body, headers=hdict, chunked=chunked, retries=False, redirect=False)
                     finally:
-                        pm.clear()
+                        try:
+                            follow_up(lambda: pm.request("GET", "http://" + HOST + FOLLOW_URL, headers=dict(FOLLOW_HDRS), retries=False, redirect=False))
+                        finally:
+                            pm.clear()
             except Exception as e:          # noqa: BLE001 - the class is the observation
                 err = exc_name(e)
-            wire = b"".join(bytes(net.sent[s]) for s in sorted(net.sent))
+            wire = b"".join(bytes(net.sent[s])[:marks.get(s, 0)] if followed else bytes(net.sent[s])
+                            for s in sorted(net.sent))
         res.bump("outcome:" + (err or "sent"))
 
         # ---- model lines
@@ -621,6 +644,11 @@ class C10(Prop):
         if err is None:
             lines.append("parse " + enc(wire))
             out.append(parse_line(strict_parse(wire)))
+        if wire2 is not None and (level == "pool" or (level == "manager" and "://" not in url[:8] or url.startswith("http://" + HOST))):
+            # the follow-up request, seen by the model as an independent request on a clean pool
+            res.bump("followup:" + ("after-error" if err else "after-sent"))
+            lines.append(f"pool {cfg_tokens(FOLLOW_URL, bs)} {enc('GET')} {enc(FOLLOW_URL)} {enc_pairs(list(FOLLOW_HDRS.items()))} N 0")
+            out.append(("ok " + enc(wire2)) if err2 is None else f"err {err2} {enc(wire2)}")
 
         # ---- oracle
         def fail(sig, what):
@@ -647,6 +675,11 @@ class C10(Prop):
                                  f"absolute-form / authority-form target {t!r} still carries the fragment")
                         return None
             check_request(wire, sent_meth, chk, headers, payload, chunked, fail)
+        if wire2:
+            # whatever the first request did, the bytes written for the follow-up are exactly that request
+            def fail2(sig, what):
+                fail("followup:" + sig, "request following the case's request on the same pool: " + what)
+            check_request(wire2, "GET", target_exact(FOLLOW_URL), list(FOLLOW_HDRS.items()), b"", False, fail2)
         return lines, out
 
     @staticmethod
